@@ -65,12 +65,46 @@ def check_case(case, ctx):
     ctx.case(case, nontrivial, sample={'expr': dsl.render(tree), 'emitted': o.pattern, 'reference': o.ref} if nontrivial else None)
 
 
+def chain_strategy(depth=2):
+    """Chains of 2-4 group/capture wrappers (flags, names, identity wrappers in between) around a concatenation
+    whose items may be such chains themselves: targets the conversion rules directly."""
+    item = leaf()
+    if depth > 0:
+        item = st.one_of(item, item, st.deferred(lambda: chain_strategy(depth - 1)))
+    sp = st.sampled_from(['class', 'method'])
+    core = st.lists(item, min_size=1, max_size=3).flatmap(
+        lambda xs: st.just(xs[0]) if len(xs) == 1 else st.sampled_from(['class', 'method', 'op']).map(lambda s: ['cat', s, xs]))
+    wrapper = st.one_of(
+        st.tuples(st.just('grp'), sp, st.booleans()), st.tuples(st.just('grp'), sp, st.booleans()),
+        st.tuples(st.just('cap'), sp, st.one_of(st.none(), st.sampled_from(dsl.NAMES))),
+        st.tuples(st.just('cap'), sp, st.one_of(st.none(), st.sampled_from(dsl.NAMES))),
+        st.tuples(st.just('id'), st.sampled_from(['cat1', 'q1', 'empty_r']), st.none()),
+    )
+
+    def apply(t):
+        x, ws = t
+        for (k, a, b) in ws:
+            if k == 'grp':
+                x = ['grp', a, x, b]
+            elif k == 'cap':
+                x = ['cap', a, x, b]
+            elif a == 'cat1':
+                x = ['cat', 'class', [x]]
+            elif a == 'q1':
+                x = ['q', 'exactly', 'class', x, 1, None, True]
+            else:
+                x = ['cat', 'method', [x, ['empty', 0]]]
+        return x
+    return st.tuples(core, st.lists(wrapper, min_size=2, max_size=4)).map(apply)
+
+
 def strategy(spec, ctx):
     feats = ['grp', 'cap', 'grp', 'cap', 'cat', 'alt', 'q', 'look', 'enc', 'strarg', 'meta']
     if ctx.shard_index % 2:
         feats = ['grp', 'cap', 'cat', 'alt', 'strarg', 'meta']
     return st.fixed_dictionaries({
-        'tree': dsl.tree_strategy(feats, max_leaves=spec.get('max_leaves', 5), leaf=leaf()),
+        'tree': st.one_of(dsl.tree_strategy(feats, max_leaves=spec.get('max_leaves', 5), leaf=leaf()),
+                          chain_strategy().map(dsl.uniquify_names)),
         'tseed': st.integers(0, 2 ** 16),
     })
 
